@@ -227,6 +227,51 @@ def run(index, rep, tier):
         rep.floor("R07.7", "tests on edge lengths in the tree model", 20, nlen)
         numeric_truthiness_rule(index, rep, "R07.7", [TM + "_tree", TM + "_node", TM + "_edge"])
 
+    # ---- R07.8
+    with rep.section("R07.8"):
+        rep.rule("R07.8", "the depth the midpoint search compares is one quantity for every node: in Node.distance_from_root every live return taken by a node that has a parent and a length goes through the ancestor walk (a comparison of a bound method with None is a dead test and its branch is ignored)")
+        fi = index.function(TM + "_node.Node.distance_from_root")
+        nk = index.klass(TM + "_node.Node")
+        cfg = cfg_of(fi)
+
+        def dead_label(t):
+            # `X.method == None` / `is None` is always false, `!= None` / `is not None` always true
+            e = t.ast
+            if isinstance(e, ast.Compare) and len(e.ops) == 1 and is_none(e.comparators[0]) and isinstance(e.left, ast.Attribute):
+                meth = None
+                for k_ in index.mro(nk):
+                    if e.left.attr in k_.methods and e.left.attr not in getattr(k_, "properties", {}):
+                        meth = k_.methods[e.left.attr]
+                        break
+                if meth is not None and not any(norm(d).split(".")[-1] in ("property", "setter", "getter") for d in meth.node.decorator_list):
+                    return "t" if isinstance(e.ops[0], (ast.Eq, ast.Is)) else "f"
+            return None
+        dead = {t.id: dead_label(t) for t in cfg.nodes if t.kind == "test" and dead_label(t)}
+
+        def edge_ok(a, lab, b):
+            return not (a.id in dead and dead[a.id] == lab) and lab != "e"
+        gates = [t for t in cfg.nodes if t.kind == "test" and isinstance(t.ast, ast.Compare) and norm(t.ast.left) == "self.edge.length" and is_none(t.ast.comparators[0]) and isinstance(t.ast.ops[0], (ast.NotEq, ast.IsNot))
+                 and cfg.dominated_by(t, lambda n: n.kind == "test" and norm(n.ast) == "self._parent_node", edge_ok=lambda a, lab, b: not (a.kind == "test" and norm(a.ast) == "self._parent_node" and lab == "f"))]
+        gates = [t for t in gates if cfg.can_reach(cfg.entry, lambda n: n is t, edge_ok=lambda a, lab, b: lab != "e" and not (a.kind == "test" and norm(a.ast) == "self._parent_node" and lab == "f"), skip_src=False)]
+        gates = gates[:1]
+        if not gates:
+            raise AnalysisError("R07.8: the has-parent-and-length branch of Node.distance_from_root not recognised")
+        walks = [n for n in cfg.nodes if n.kind in ("test", "loop") and isinstance(n.stmt, ast.While) and any(isinstance(a, ast.Assign) and isinstance(a.value, ast.Attribute) and a.value.attr in ("_parent_node", "parent_node") and norm(a.targets[0]) == norm(a.value.value) for a in ast.walk(n.stmt))]
+        if not walks:
+            raise AnalysisError("R07.8: ancestor walk of Node.distance_from_root not recognised")
+        walk_ids = {n.id for n in walks}
+        starts = [b for lab, b in gates[0].succ if lab == "t"]
+        seen = cfg.reach(starts, avoid=lambda n: n.id in walk_ids, follow_exc=False, edge_ok=edge_ok)
+        nret = 0
+        for n in cfg.nodes:
+            if isinstance(n.stmt, ast.Return) and n.kind == "stmt" and cfg.can_reach(gates[0], lambda x: x is n, edge_ok=edge_ok):
+                nret += 1
+                short = any(x is n for x in seen)
+                rep.check(not short, "R07.8", fi.qualname, "return `%s` skips the ancestor walk" % norm(n.stmt.value)[:40], fn_where(fi, n.stmt), "distance_from_root: `return %s` follows the ancestor walk" % norm(n.stmt.value)[:40],
+                          "Node.distance_from_root returns `%s` for a node with a parent and a length without walking its ancestors, while other nodes get the sum over all ancestor edges including the root's own: the two depths reroot_at_midpoint compares to decide which of the most distant leaves to climb from are then different quantities, and with a root edge length the climb starts from the wrong leaf and never meets the midpoint" % norm(n.stmt.value)[:60])
+        rep.floor("R07.8", "live returns of the weighted branch of distance_from_root", 1, nret)
+        rep.note("R07.8 dead tests ignored: %s" % ", ".join("`%s` (never %s)" % (norm(t.ast), "true" if dead[t.id] == "t" else "false") for t in cfg.nodes if t.id in dead))
+
     # ---- R07.5
     with rep.section("R07.5"):
         fi = index.function(TREE + ".reroot_at_edge")
